@@ -202,6 +202,11 @@ class C06(Prop):
                 fails.append(("delivered-not-sent", "delivered a frame that was not sent intact: " + g[:120]))
                 break
             j += 1
+        # datagram mode: a datagram that fits the receive buffer is taken whole - a reader that offers less room
+        # than its buffer holds truncates it and the frame is lost (seeded change C06_c: consumed space not reclaimed)
+        if m["kind"] == "datagram" and "overflow" in impl and not fails:
+            fails.append(("datagram-truncated", "datagram mode: the reader offered less room than a datagram of at most 293 octets needs "
+                          "after %d delivered frames: the datagram would be truncated and its frame lost" % len(got)))
         # liveness: every intact frame is recovered
         if m.get("must_all") and "overflow" not in impl:
             if got[:len(allowed)] != allowed and not fails:
